@@ -117,6 +117,31 @@ pub fn stress_menu() -> Vec<String> {
     out
 }
 
+/// Statements with bang-operator variables, untypable values, group let and if/else; used in
+/// words of <= 2 statements together with the stress menu.
+pub fn stress_menu_b() -> Vec<String> {
+    let templates: &[&str] = &[
+        "class X { list<int> v = [1]; list<int> w = !foreach(e, v, !add(e, Y)); int z = !foldl(0, w, a, b, !add(a, b)); int last = e; }",
+        "let f = 1 in { def X : Y; }",
+        "if !eq(1, 1) then { def X : Y; } else { def X; }",
+        "def X : Y { int v = !cond(true: 1); let f = !cond(true: 2); bits<2> b = { 1, 0 }; bit c = b{0}; }",
+        "defvar X = !filter(e, [1, 2], !gt(e, Y));",
+        "multiclass X<int p = !cond(true: 1)> : Y<p> { defvar v = p; def _a : X; }",
+    ];
+    let mut out = Vec::new();
+    for t in templates {
+        for x in ["A", "B"] {
+            for y in ["A", "B"] {
+                let s = t.replace('X', "\u{1}").replace('Y', y).replace('\u{1}', x);
+                if !out.contains(&s) {
+                    out.push(s);
+                }
+            }
+        }
+    }
+    out
+}
+
 pub fn seed_workspace(files: &space::Files, name: &str, text: &str, stratum: &'static str) -> WsCase {
     // seeds may include each other: give every workspace the whole seed directory
     if text.contains("include") {
@@ -182,6 +207,23 @@ pub fn for_each_workspace(tier: Tier, ctx: &mut Ctx, mut f: impl FnMut(&mut Ctx,
             }
         }
     }
+    // 2a. the second menu: every word of <= 2 statements over both menus with at least one statement of the second
+    {
+        let mut both = menu.clone();
+        both.extend(stress_menu_b());
+        let n = both.len() as u64;
+        let total = tgv_core::words::count_upto(n, 2);
+        for idx in 0..total {
+            tgv_core::words::decode(idx, n, 2, &mut word);
+            if !word.iter().any(|&i| i >= m) || !ctx.mine() {
+                continue;
+            }
+            let text = word.iter().map(|&i| both[i].as_str()).collect::<Vec<_>>().join("\n");
+            if !f(ctx, &WsCase::single(&text, "stress-b")) {
+                return;
+            }
+        }
+    }
     // 2b. diamonds: the root includes b and c, c includes b again; statements follow the includes
     let c_stmts = ["class CC : A;", "def cc : B { let f = 3; }", "defvar A = B;"];
     for bi in 0..m {
@@ -203,6 +245,34 @@ pub fn for_each_workspace(tier: Tier, ctx: &mut Ctx, mut f: impl FnMut(&mut Ctx,
                 if !f(ctx, &case) {
                     return;
                 }
+            }
+        }
+    }
+    // 2c. an include statement inside a block: whatever the server makes of it, every answer stays
+    // inside the file it names (the included file is longer than the includer)
+    let nests = [
+        "class A;\ndefset list<A> S = { include \"b.td\" }\ndef after : A;",
+        "let f = 1 in { include \"b.td\" }\ndef after : B;",
+        "foreach i = [1] in { include \"b.td\" }",
+        "if 1 then { include \"b.td\" } else { include \"b.td\" }",
+        "multiclass M { include \"b.td\" }\nclass A { include \"b.td\" }",
+    ];
+    for nest in nests {
+        for bi in 0..m {
+            if !ctx.mine() {
+                continue;
+            }
+            let case = WsCase {
+                files: vec![
+                    ("/ws/a.td".into(), nest.to_string()),
+                    ("/ws/b.td".into(), format!("// a longer file than its includer, with names declared far from the start\n// é😀 and a second line\n{}\ndef farAway : A {{ int value = 1; }}", menu[bi])),
+                ],
+                root: "/ws/a.td".into(),
+                stratum: "nested-include",
+                focus: None,
+            };
+            if !f(ctx, &case) {
+                return;
             }
         }
     }
